@@ -8,7 +8,8 @@
     This file decodes the inputs, runs [Model.Dhcp4.step], and encodes the
     model's observations the same way. *)
 From AGH Require Import Base.Run.
-From AGH Require Export Model.Dhcp4.
+From AGH Require Export Model.Dhcp4 Model.Dhcp4Admin.
+From AGH Require Model.Dhcp4Bitset.
 Local Open Scope N_scope.
 
 (** Encoded operations (all addresses and names encoded as above). *)
@@ -22,23 +23,39 @@ Inductive eop :=
   | EStaticRemove (mac ip : N) (host : N)
   | ETick
   | ERestart
-  | ESetConfig (start end_ : N).   (* set_config with this pool, same network *)
+  | ESetConfig (start end_ : N)    (* set_config with this pool, same network *)
+  | EReset                         (* POST /control/dhcp/reset *)
+  | EResetLeases                   (* POST /control/dhcp/reset_leases *)
+  | EStatus.                       (* GET /control/dhcp/status *)
 
 (** table: flat (address, hardware address, name, kind) with kind 0 static,
     1 dynamic not expired, 2 dynamic expired or never acknowledged, sorted by
     the harness; host_by_ip: flat (address, name) over the subnet, non-empty
-    answers; ip_by_host: flat (name, address) over the first [nprobe] names. *)
+    answers; ip_by_host: flat (name, address) over the first [nprobe] names;
+    status: what GET /control/dhcp/status reports of the configuration:
+    enabled (0 / 1), first and last address of the pool (0 0: unconfigured).
+    disk_is_memory: the lease file of the data directory the process was
+    started with lists exactly the table. *)
 Inductive obs :=
-  | Ob (r : reply) (table host_by_ip ip_by_host active_ips mac_by_ip : list N) (disk_is_memory : bool)
+  | Ob (r : reply) (table host_by_ip ip_by_host active_ips mac_by_ip status : list N) (disk_is_memory : bool)
   | ObS (r : reply) (disk_is_memory : bool).  (* tables as in the previous step *)
 
 (** [busy]: the (encoded) addresses that answer the ICMP probe during the step. *)
 Inductive stepobs := St (dt : Z) (busy : list N) (o : eop) (ob : obs).
 
-(** [ConfCase]: the four addresses of a configuration, whether the real
+(** [Case]: a history on a service created in an empty data directory, with
+    the DHCPv4 settings [c] in the configuration file, or ([fresh]) with no
+    DHCPv4 settings and DHCP disabled ([c] is then only the network the
+    set_config requests of the history configure).
+    [ConfCase]: the four addresses of a configuration, whether the real
     Validate accepted them, and the subnet it derived (first and last address). *)
+(** One operation on a bit set (bitset.go): a write, or a read with the
+    answer of the real isSet. *)
+Inductive bitop := BSet (n : N) (v : bool) | BGet (n : N) (seen : bool).
+
 Inductive case :=
-  | Case (c : conf) (names : list bytes) (nprobe : nat) (t0 : Z) (steps : list stepobs)
+  | BitCase (is_nil : bool) (ops : list bitop)  (* a nil *bitSet / newBitSet() *)
+  | Case (c : conf) (fresh : bool) (names : list bytes) (nprobe : nat) (t0 : Z) (steps : list stepobs)
   | ConfCase (start end_ gw mask : N) (accepted : bool) (sub_lo sub_hi : N).
 
 Section Codec.
@@ -68,7 +85,18 @@ Section Codec.
     | EStaticUpdate m ip h => OStaticUpdate m (dec_ip ip) (dec_host h)
     | EStaticRemove m ip h => OStaticRemove m (dec_ip ip) (dec_host h)
     | ETick => OTick
-    | ERestart | ESetConfig _ _ => ORestart
+    | ERestart | ESetConfig _ _ | EReset | EResetLeases | EStatus => ORestart
+    end.
+
+  (** The operation on the service; set_config keeps the network of [c]. *)
+  Definition dec_wop (o : eop) : wop :=
+    match o with
+    | ERestart => WRestart
+    | ESetConfig a b => WSetConfig (with_pool c (dec_ip a) (dec_ip b))
+    | EReset => WReset
+    | EResetLeases => WResetLeases
+    | EStatus => WStatus
+    | _ => WOp (dec_op o)
     end.
 
   Definition enc_reply (r : reply) : reply :=
@@ -110,9 +138,13 @@ Definition eqb_entry (a b : N * N * bytes * bool) : bool :=
 Definition subnet_ips (c : conf) : list N :=
   map (fun k => c_sub_lo c + N.of_nat k) (seq 0 (N.to_nat (c_sub_hi c - c_sub_lo c + 1))).
 
-(** The model's tables, encoded: (table rows, host_by_ip, ip_by_host). *)
-Definition model_tables (c : conf) (names : list bytes) (nprobe : nat) (now : Z) (s : state)
-  : list (list N) * list N * list N * list N * list N :=
+(** The model's tables, encoded: (table rows, host_by_ip, ip_by_host,
+    active addresses, mac_by_ip, status). *)
+Definition tables : Type := list (list N) * list N * list N * list N * list N * list N.
+Definition seen_tables : Type := list N * list N * list N * list N * list N * list N.
+
+Definition model_tables (c : conf) (names : list bytes) (nprobe : nat) (now : Z) (w : world) : tables :=
+  let s := st_of w in
   (map (project c names now) (leases s),
    flat_map (fun ip => let h := host_by_ip s ip in
                        if is_nil h then [] else [enc_ip c ip; enc_host names h]) (subnet_ips c),
@@ -120,48 +152,73 @@ Definition model_tables (c : conf) (names : list bytes) (nprobe : nat) (now : Z)
                       if ip =? 0 then [] else [enc_host names h; enc_ip c ip]) (firstn nprobe names),
    map (fun l => enc_ip c (l_ip l)) (active now s),
    flat_map (fun ip => let m := mac_by_ip now s ip in
-                       if m =? 0 then [] else [enc_ip c ip; m]) (subnet_ips c)).
+                       if m =? 0 then [] else [enc_ip c ip; m]) (subnet_ips c),
+   let '(en, a, b) := status w in [if en then 1 else 0; enc_ip c a; enc_ip c b]).
 
-Definition disk_is_memory (s : state) : bool :=
-  same_multiset eqb_entry (map file_entry (disk s)) (map file_entry (leases s)).
+(** The data directory of the model's process (any name will do: the
+    theorems hold for every directory). *)
+Definition model_dir : bytes := [100].
 
-Definition eqb_tables (seen : list N * list N * list N * list N * list N)
-    (m : list (list N) * list N * list N * list N * list N) : bool :=
-  let '(t1, a1, b1, g1, f1) := seen in let '(t2, a2, b2, g2, f2) := m in
+(** The lease file of the data directory lists exactly the table. *)
+Definition disk_is_memory (w : world) : bool :=
+  same_multiset eqb_entry (map file_entry (data_file model_dir w)) (map file_entry (w_leases w)).
+
+Definition eqb_tables (seen : seen_tables) (m : tables) : bool :=
+  let '(t1, a1, b1, g1, f1, u1) := seen in let '(t2, a2, b2, g2, f2, u2) := m in
   same_multiset (eqb_list N.eqb) (chunk4 t1) t2 && eqb_list N.eqb a1 a2 && eqb_list N.eqb b1 b2
-  && same_multiset N.eqb g1 g2 && eqb_list N.eqb f1 f2.
+  && same_multiset N.eqb g1 g2 && eqb_list N.eqb f1 f2 && eqb_list N.eqb u1 u2.
 
 (** First step where model and implementation differ, with what the model
     computes there: (step index, reply, tables, disk_is_memory). *)
-Fixpoint first_bad (c : conf) (names : list bytes) (nprobe : nat) (t0 : Z) (i : N) (s : state)
-    (prev : list N * list N * list N * list N * list N) (steps : list stepobs)
-  : option (N * reply * (list (list N) * list N * list N * list N * list N) * bool) :=
+Fixpoint first_bad (c : conf) (names : list bytes) (nprobe : nat) (t0 : Z) (i : N) (w : world)
+    (prev : seen_tables) (steps : list stepobs)
+  : option (N * reply * tables * bool) :=
   match steps with
   | [] => None
   | St dt busy o ob :: rest =>
       let now := (t0 + dt)%Z in
-      let '(c', s', r) :=
-        match o with
-        | ESetConfig a b =>
-            let '(c1, s1, ok) := set_config_pool c (dec_ip c a) (dec_ip c b) s in (c1, s1, RApi ok)
-        | _ => let '(s1, r1) := step c s now (map (dec_ip c) busy) (dec_op c names o) in (c, s1, r1)
-        end in
-      let m := model_tables c names nprobe now s' in
+      let '(w', r) := wstep model_dir w now (map (dec_ip c) busy) (dec_wop c names o) in
+      let m := model_tables c names nprobe now w' in
       let '(r1, seen, d1) :=
-        match ob with Ob r t a b g f d => (r, (t, a, b, g, f), d) | ObS r d => (r, prev, d) end in
-      if eqb_reply r1 (enc_reply c r) && eqb_tables seen m && Bool.eqb d1 (disk_is_memory s')
-      then first_bad c' names nprobe t0 (i + 1) s' seen rest
-      else Some (i, enc_reply c r, m, disk_is_memory s')
+        match ob with Ob r t a b g f u d => (r, (t, a, b, g, f, u), d) | ObS r d => (r, prev, d) end in
+      if eqb_reply r1 (enc_reply c r) && eqb_tables seen m && Bool.eqb d1 (disk_is_memory w')
+      then first_bad c names nprobe t0 (i + 1) w' seen rest
+      else Some (i, enc_reply c r, m, disk_is_memory w')
+  end.
+
+(** The service at the start of a case: created in an empty data directory. *)
+Definition start_world (c : conf) (fresh : bool) : world :=
+  create model_dir (if fresh then (None, false) else (Some c, true)) (fun _ => []).
+
+(** Replays the operations on the word / bit model and on the abstract
+    leased-offset set ([upd] on a function, what Model/Dhcp4.v uses; a nil
+    set ignores writes): every read must agree with both.  Index of the first
+    read that does not. *)
+Fixpoint bits_first_bad (i : N) (s : Dhcp4Bitset.bitset) (a : N -> bool) (is_nil : bool) (ops : list bitop)
+  : option N :=
+  match ops with
+  | [] => None
+  | BSet n v :: rest =>
+      bits_first_bad (i + 1) (Dhcp4Bitset.set s n v) (if is_nil then a else upd a n v) is_nil rest
+  | BGet n seen :: rest =>
+      if Bool.eqb seen (Dhcp4Bitset.is_set s n) && Bool.eqb seen (a n)
+      then bits_first_bad (i + 1) s a is_nil rest else Some i
   end.
 
 Definition explain (k : case) :=
   match k with
-  | Case c names nprobe t0 steps => first_bad c names nprobe t0 0 empty_state ([], [], [], [], []) steps
+  | BitCase nl ops =>
+      match bits_first_bad 0 (if nl then None else Dhcp4Bitset.new_bitset) (fun _ => false) nl ops with
+      | None => None
+      | Some i => Some (i, RNone, ([], [], [], [], [], []), false)
+      end
+  | Case c fresh names nprobe t0 steps =>
+      first_bad c names nprobe t0 0 (start_world c fresh) ([], [], [], [], [], []) steps
   | ConfCase a b gw mask acc lo hi =>
       let c := conf_of a b gw mask 0 0 in
       if Bool.eqb acc (valid_conf_b c) && (negb acc || ((c_sub_lo c =? lo) && (c_sub_hi c =? hi)))
       then None
-      else Some (0, RApi (valid_conf_b c), ([], [c_sub_lo c; c_sub_hi c], [], [], []), false)
+      else Some (0, RApi (valid_conf_b c), ([], [c_sub_lo c; c_sub_hi c], [], [], [], []), false)
   end.
 
 Definition case_ok (k : case) : bool :=
